@@ -34,7 +34,7 @@ NP_OF = {
     'C04': [('UtilsTests', ['is_ergodic', 'ergodic_mask']), ('MsmNorm', ['row_normalize_matrix', 'equilibrium_population'])],
     'C01': [('StateTrajInit', ['init']), ('MsmNorm', ['row_normalize_matrix']), ('MsmEstimate', ['estimate_markov_model_perm', 'estimate_markov_model_default'])],
     'C03': [('StateTrajHS', ['_estimate_markov_model']), ('MsmNorm', ['row_normalize_matrix'])],
-    'C09': [('MsmTests', ['_calc_times'])],
+    'C09': [('MsmTests', ['_calc_times', '_chapman_kolmogorov_test', '_chapman_kolmogorov_test_md'])],
     'C19': [('PlotCkTest', ['_split_array'])],
     'C05': [('MdCoringApi', ['dynamical_coring'])],
     'C20': [('UtilsFiltering', ['runningmean'])],
@@ -201,6 +201,15 @@ def gen_cases(module, kernel, rng, n):
             n = rng.randint(0, 24)
             arr = sorted(rng.sample(range(-5, 60), n))
             yield {'k': kernel, 'args': [arr, rng.choice([0, 1, 1, 2, 3, 4, 5, 6, 7, 12, 30])], 'mode': 'py'}
+        elif module == 'MsmTests' and kernel != '_calc_times':
+            ns_ = rng.randint(2, 3)
+            labs = sorted(rng.sample(range(-5, 30), ns_))
+            t = [labs[i] for i in _sticky(rng, rng.randint(8, 20), ns_)]
+            for l_ in labs:
+                if l_ not in t:
+                    t.append(l_)
+            lag = rng.randint(1, 3)
+            yield {'k': kernel, 'args': None, 'trajs': [t], 'lag': lag, 'tmax': rng.randint(lag, 14), 'steps': rng.choice([3, 5, 30]), 'mode': 'py'}
         elif module == 'MsmTests':
             yield {'k': kernel, 'args': [rng.choice([0, 1, 1, 2, 3, 4, 5, 7, 10, 25]), rng.randint(0, 80)], 'mode': 'py'}
         elif module in ('MdCompareApi', 'MdTimesApi', 'MdCoringApi'):
@@ -439,6 +448,34 @@ def real_one(module, case):
         inputs, fn = None, None
         if module != 'StateTrajBase':
             fn = getattr(mod, 'runningmean' if module == 'UtilsFiltering' else 'open_limits')
+    elif module == 'MsmTests' and case['k'] != '_calc_times':
+        import msmhelper as mh
+        fn = None
+        try:
+            obj = mh.StateTraj([np.array(t, dtype=np.int64) for t in case['trajs']])
+            sts = [int(x) for x in obj.states]
+
+            def est(lag_):
+                T, st_ = obj.estimate_markov_model(int(lag_))
+                return [int(lag_), [_ratmat(np.asarray(T).tolist()), [int(x) for x in st_]]]
+
+            def canon(d, lists):
+                out = [[[int(k_), [core.rat_str(float(v)) for v in vals]] for k_, vals in d['ck'].items()], [int(x) for x in d['time']]]
+                if lists:
+                    out += [[bool(x) for x in d['is_ergodic']], [bool(x) for x in d['is_fuzzy_ergodic']]]
+                else:
+                    out += [bool(d['is_ergodic']), bool(d['is_fuzzy_ergodic'])]
+                return out
+            if case['k'] == '_chapman_kolmogorov_test':
+                inputs = {'args': [int(obj.nstates), sts, case['lag'], case['tmax']], 'oracle': {'estimate': [est(case['lag'])]}}
+                case = dict(case, _run=lambda: canon(mod._chapman_kolmogorov_test(obj, case['lag'], case['tmax']), False))
+            else:
+                grid = np.around(np.geomspace(start=case['lag'], stop=case['tmax'], num=case['steps'])).astype(np.int64)
+                inputs = {'args': [int(obj.nstates), sts, case['lag'], case['tmax'], case['steps']],
+                          'oracle': {'times': [int(x) for x in grid], 'estimate': [est(x) for x in np.unique(grid)]}}
+                case = dict(case, _run=lambda: canon(mod._chapman_kolmogorov_test_md(obj, tmin=case['lag'], tmax=case['tmax'], steps=case['steps']), True))
+        except Exception as e:  # noqa
+            return {'skip': core.err_name(e)}
     elif module in ('StateTrajAcc', 'LumpedAcc'):
         import msmhelper as mh
         fn = None
@@ -628,7 +665,7 @@ def real_one(module, case):
             return [[core.rat_str(float(v)) for v in row] for row in res]
         if module == 'PlotCkTest':
             return [[int(v) for v in ch] for ch in call(np.array(a[0], dtype=np.int64), a[1])]
-        if module == 'MsmTests':
+        if module == 'MsmTests' and k == '_calc_times':
             return [int(v) for v in call(a[0], a[1])]
         if module == 'StateTrajHS':
             return [[core.rat_str(float(v)) for v in row] for row in case['_obj']._estimate_markov_model(case['_msm_i'])]
@@ -678,7 +715,7 @@ def real_one(module, case):
                 return [int(v) for v in mod.propagate_MCMC(mh.StateTraj([np.array(a[0], dtype=np.int64)]), a[1], a[2], start=a[3])]
             finally:
                 mod._get_cummat, mod._propagate_MCMC, np.random.choice = o_cm, o_pr, o_ch
-        if module in ('MsmTimes', 'MdCompareApi', 'MdTimesApi', 'MdCoringApi', 'StateTrajAcc', 'LumpedAcc'):
+        if module in ('MsmTimes', 'MdCompareApi', 'MdTimesApi', 'MdCoringApi', 'StateTrajAcc', 'LumpedAcc') or (module == 'MsmTests' and k != '_calc_times'):
             return case['_run']()
         if module == 'MsmCummat':
             # the function estimates its matrix from trajectories: feed the chosen matrix through a stub of the estimator
@@ -830,6 +867,18 @@ def same(case, real, gen):
                     return False          # a forced 1 must be exactly 1
                 if abs(fx - fy) > Fraction(1, 10 ** 14):
                     return False
+        return True
+    if k in ('_chapman_kolmogorov_test', '_chapman_kolmogorov_test_md'):
+        flat, cur = [], g
+        while isinstance(cur, list) and len(cur) == 2 and len(flat) < 3:
+            flat.append(cur[0])
+            cur = cur[1]
+        flat.append(cur)
+        if len(flat) != 4 or flat[1:] != r[1:] or len(flat[0]) != len(r[0]):
+            return False
+        for (ka, va), (kb, vb) in zip(r[0], flat[0]):
+            if ka != kb or len(va) != len(vb) or any(abs(Fraction(x) - Fraction(y)) > Fraction(1, 10 ** 9) for x, y in zip(va, vb)):
+                return False
         return True
     if k == 'init' and case.get('macro') is not None:
         flat = []
